@@ -49,6 +49,19 @@ func fixedSession(kind string, ci int) (*ClientPlan, *ClientMeta) {
 			{Kind: "h2await", Streams: []uint32{3}},
 			{Kind: "close"},
 		}
+	} else if kind == "h1up" {
+		// a request, then a protocol upgrade and two messages through the tunnel
+		m.Proto = "h1"
+		up := ReqSpec{Tag: fmt.Sprintf("c%d-up", ci), Method: "GET", Path: "/ws", Host: "fixed.verif.test", Header: [][2]string{{"Connection", "Upgrade"}, {"Upgrade", "verif-echo"}}}
+		m.Reqs = []ReqSpec{r0, up}
+		cp.Steps = []Step{
+			{Kind: "connect"},
+			{Kind: "h1req", Pieces: [][]byte{r0.H1()}, Tag: r0.Tag},
+			{Kind: "h1req", Pieces: [][]byte{up.H1()}, Tag: up.Tag},
+			{Kind: "tunnel", Pieces: [][]byte{[]byte(strings.Repeat("tunnel message one ", 8))}},
+			{Kind: "tunnel", Pieces: [][]byte{[]byte(strings.Repeat("tunnel message two ", 4))}},
+			{Kind: "close"},
+		}
 	} else {
 		cp.Steps = []Step{
 			{Kind: "connect"},
@@ -98,7 +111,7 @@ func checkControl(w *World, c *Case, ci int, what string) {
 	w.Probe("control_served")
 }
 
-var leakPatterns = []string{"proxyserver.(*Server).serveConn", "http2.(*serverConn)", "net/http.(*conn).serve", "net/http.(*persistConn)", "hack.(*ChannelListener).SendToChannel", "http2.(*Server).ServeConn"}
+var leakPatterns = []string{"httputil.switchProtocolCopier", "httputil.(*ReverseProxy)", "proxyserver.(*Server).serveConn", "http2.(*serverConn)", "net/http.(*conn).serve", "net/http.(*persistConn)", "hack.(*ChannelListener).SendToChannel", "http2.(*Server).ServeConn"}
 
 // checkReleased: every front connection has been closed by the proxy and no
 // goroutine serving a connection is left.  Advances simulated time as needed
@@ -140,7 +153,14 @@ func checkReleased(w *World, what string) {
 				first = first[:1500]
 			}
 		}
-		w.Violate("not_released", "not_released", "%s: %d s of simulated time after every client had gone, connections still open on the proxy side: %v; goroutines still serving connections: %d; first:\n%s", what, total, open, len(gs), first)
+		var tops []string
+		for _, g := range gs {
+			ls := strings.SplitN(g, "\n", 3)
+			if len(ls) >= 2 {
+				tops = append(tops, strings.TrimSuffix(ls[0], ":")+" "+ls[1])
+			}
+		}
+		w.Violate("not_released", "not_released", "%s: %d s of simulated time after every client had gone, connections still open on the proxy side: %v; goroutines still serving connections: %d %v; first:\n%s", what, total, open, len(gs), tops, first)
 		return
 	}
 	if settled > 7 {
@@ -154,13 +174,13 @@ func checkReleased(w *World, what string) {
 func init() {
 	register(&CheckDef{ID: "C11", Level: "fault_enumeration", Engine: "A", Draw: drawC11,
 		Rule:     "random part: 1-8 connections of random kinds (C16 kinds) in parallel, aborted by FIN or RST at random byte offsets or stalled, handshake timeout in {off,1s,10s} and idle timeout in {2s,30s,180s} through the real flags; oracle: once every client has gone and simulated time has advanced (<= 217 s) every accepted connection has been closed by the proxy and the goroutine census (stable at quiescence) shows no serveConn / http2 serverConn / net/http conn / persistConn goroutine. Non-trivial: at least one fault fired. Distinct: distinct controller action-label sequences.",
-		EnumRule: "enumerated part: a client abort (FIN and RST) at EVERY byte offset of the client->proxy stream of a fixed HTTP/1.1 and a fixed HTTP/2 session (two requests each); a silent stall at every byte offset of the handshake for handshake timeouts 1s and 10s (the proxy must hang up at the timeout, not earlier); a silent stall at EVERY byte offset of both sessions that lasts 12 s or 75 s before the client goes away by FIN or RST (everything must be released afterwards); an idle connection after served requests for idle timeouts 2s and 30s on both protocols, the last stream ending normally, by a client RST_STREAM, by a server RST_STREAM or with a HEADERS frame refused before a stream exists (the proxy must close it at the timeout). Quick tier: stride sample; thorough tier: every index.",
+		EnumRule: "enumerated part: a client abort (FIN and RST) at EVERY byte offset of the client->proxy stream of a fixed HTTP/1.1 session, a fixed HTTP/2 session (two requests each) and a fixed HTTP/1.1 session that upgrades the protocol (101 through the reverse proxy, then two messages through the tunnel); a silent stall at every byte offset of the handshake for handshake timeouts 1s and 10s (the proxy must hang up at the timeout, not earlier); a silent stall at EVERY byte offset of the three sessions that lasts 12 s or 75 s before the client goes away by FIN or RST (everything must be released afterwards); an idle connection after served requests for idle timeouts 2s and 30s on both protocols, the last stream ending normally, by a client RST_STREAM, by a server RST_STREAM or with a HEADERS frame refused before a stream exists (the proxy must close it at the timeout). Quick tier: stride sample; thorough tier: every index.",
 		Enum:     &EnumDef{Params: faultParams, Count: c11Count, Case: c11Case}})
 }
 
 func faultParams(run func(c *Case) *World) map[string]int {
 	params := map[string]int{}
-	for _, kind := range []string{"h1", "h2"} {
+	for _, kind := range []string{"h1", "h2", "h1up"} {
 		cp, m := fixedSession(kind, 0)
 		p := &Plan{Check: "params", Clients: []*ClientPlan{cp}}
 		c := &Case{Plan: p, Metas: []*ClientMeta{m}}
@@ -191,7 +211,7 @@ type faultCase struct {
 }
 
 func c11Decode(p map[string]int, i int) faultCase {
-	for _, s := range []string{"h1", "h2"} {
+	for _, s := range []string{"h1", "h2", "h1up"} {
 		n := 2 * (p[s+"_total"] + 1)
 		if i < n {
 			return faultCase{Kind: "abort", Session: s, How: []string{"fin", "rst"}[i%2], Off: i / 2}
@@ -205,7 +225,7 @@ func c11Decode(p map[string]int, i int) faultCase {
 		}
 		i -= n
 	}
-	for _, s := range []string{"h1", "h2"} {
+	for _, s := range []string{"h1", "h2", "h1up"} {
 		n := 2 * (p[s+"_total"] + 1)
 		if i < n {
 			return faultCase{Kind: "stall_abort", Session: s, How: []string{"fin", "rst"}[(i/2)%2], Off: i / 2, Wait: []int{12, 75}[i%2]}
@@ -218,7 +238,7 @@ func c11Decode(p map[string]int, i int) faultCase {
 }
 
 func c11Count(p map[string]int) int {
-	return 4*(p["h1_total"]+1) + 4*(p["h2_total"]+1) + 2*p["h1_hs"] + 2*p["h2_hs"] + 10
+	return 4*(p["h1_total"]+1) + 4*(p["h2_total"]+1) + 4*(p["h1up_total"]+1) + 2*p["h1_hs"] + 2*p["h2_hs"] + 10
 }
 
 func c11Case(p map[string]int, i int) *Case {
@@ -256,7 +276,9 @@ func c11Case(p map[string]int, i int) *Case {
 			cl := w.Clients[0]
 			w.SettleTime(fc.Wait)
 			if !cl.aborted && cl.conn != nil {
+				// the silence ends with the client leaving: its FIN / RST does arrive
 				cl.Plan.AbortKind = fc.How
+				cl.Plan.StallOn = false
 				w.abortClient(cl)
 			}
 			checkReleased(w, c.Summary)
@@ -336,6 +358,8 @@ func drawC11(t *rapid.T) *Case {
 		kinds = append(kinds, fmt.Sprintf("%s/%s@%d", kind, cp.AbortKind, cp.AbortAt))
 	}
 	p.Fences = drawBool(t, "fences", 30)
+	// park request handlers and the serve loop around their critical sections on the captured frames
+	p.CaptureFences = drawBool(t, "capturefences", 25)
 	p.BackendKeepAlive = false
 	p.Tape, p.Tail = drawTape(t, 96)
 	c := &Case{Plan: p, Metas: metas}
